@@ -1331,7 +1331,10 @@ macro_rules! skip_iterator_iterator_impl {
                 // to check if it's a digit, which adds on additional cost but
                 // there's not much else we can do. Hopefully the previous inlining
                 // checks will minimize the performance hit.
-                if !Self::IS_CONTIGUOUS && self.is_digit(*value) {
+                // NOTE: this must use the contiguity of the underlying buffer, which
+                // is what `Bytes::current_count` switches on: this iterator can be
+                // contiguous while another component has digit separators.
+                if !<Bytes<'a, FORMAT> as Iter<'a>>::IS_CONTIGUOUS && self.is_digit(*value) {
                     self.increment_count();
                 }
                 Some(value)
